@@ -135,3 +135,10 @@ Fixpoint run_ops (var : variant) (g : genobj) (ops : list gop) (w : world) : lis
 Definition eval_gen (var : variant) (b : gbeh) (ops : list gop) : list Z :=
   let (out, w) := run_ops var (gen_of 0 (Some 0) b) ops w0 in
   out ++ [(-1)%Z] ++ flat_map enc_event (journal w).
+
+(* plain contextlib.contextmanager / asynccontextmanager over an arbitrary generator (validates
+   Model/Contextlib.v against the real contextlib, also on branches the safe wrapper never reaches):
+   [#events] events(4 each) leaves(3) class *)
+Definition eval_plain (var : variant) (b : gbeh) (o : body_oc) : list Z :=
+  let '(r, w) := with_gen var (gen_of 0 (Some 0) b) (simple_body 0 o) w0 in
+  [zn (List.length (jrev w))] ++ flat_map enc_event (journal w) ++ enc_leaves (classify r) ++ enc_class r.
